@@ -554,7 +554,7 @@ func (tw *TumblingWindow) checkAndTriggerWindows(watermarkTime time.Time) {
 		} else {
 			debugLog("checkAndTriggerWindows: window [%v, %v) has no data, skipping trigger",
 				windowStart.UnixMilli(), windowEnd.UnixMilli())
-			tw.currentSlot = tw.NextSlot()
+			tw.currentSlot = tw.skipEmptySlotsLocked(watermarkTime)
 			if tw.currentSlot == nil {
 				debugLog("checkAndTriggerWindows: NextSlot returned nil, stopping")
 				break
@@ -571,6 +571,33 @@ func (tw *TumblingWindow) checkAndTriggerWindows(watermarkTime time.Time) {
 
 	// Close windows that have exceeded allowedLateness
 	tw.closeExpiredWindows(watermarkTime)
+}
+
+// skipEmptySlotsLocked returns the slot to examine after an empty one: the slot of
+// the earliest buffered row at or after the next slot's start or, when nothing is
+// buffered there, the slot that contains the watermark (which cannot fire yet).
+// Every slot in between is empty, so nothing is skipped that could be emitted. It
+// replaces stepping slot by slot, which takes billions of iterations under the
+// window lock when the watermark jumps far ahead of the cursor (idle timeout over
+// historic timestamps, a device clock set to 1970) and stalls Add and Stop.
+func (tw *TumblingWindow) skipEmptySlotsLocked(watermarkTime time.Time) *types.TimeSlot {
+	next := tw.NextSlot()
+	if next == nil {
+		return nil
+	}
+	target := alignWindowStart(watermarkTime, tw.size)
+	for _, item := range tw.data {
+		if item.Timestamp.Before(*next.Start) {
+			continue
+		}
+		if s := alignWindowStart(item.Timestamp, tw.size); s.Before(target) {
+			target = s
+		}
+	}
+	if target.After(*next.Start) {
+		return tw.createSlotFromStart(target)
+	}
+	return next
 }
 
 // closeExpiredWindows closes windows that have exceeded allowedLateness
